@@ -50,6 +50,13 @@ def register(op):
         ss, brk, ign = a
         return _stable(lambda: cu.make_pair_table(list(ss), strand_break=brk, ignore=set(ign)))
 
+    @op("make_pair_table_members")
+    def _(a):
+        """a LIST structure whose members need not be single characters, `ignore` given as a str / set / list / default"""
+        ss, brk, ign, form = a
+        kw = {} if form == "default" else {"ignore": "".join(ign) if form == "str" else set(ign) if form == "set" else list(ign)}
+        return cu.make_pair_table(list(ss), strand_break=brk, **kw)
+
     @op("pair_table_to_dot_bracket")
     def _(a):
         pt, brk = a
